@@ -5,6 +5,12 @@ import (
 	"github.com/valyala/fasthttp"
 )
 
+// requestCookie is one name/value pair of the Cookie request header.
+type requestCookie struct {
+	name  string
+	value string
+}
+
 // New creates a new middleware handler
 func New(config ...Config) fiber.Handler {
 	// Set default config
@@ -17,18 +23,25 @@ func New(config ...Config) fiber.Handler {
 			return c.Next()
 		}
 
-		// Decrypt request cookies
+		// Decrypt request cookies. The header may carry a name more than once and SetCookie only
+		// rewrites the first entry of a name, so the cookies are collected and the header is rebuilt:
+		// one entry per name (the last pair wins), no entry keeps the bytes the client sent.
+		cookies := make([]requestCookie, 0, 8)
 		c.Request().Header.VisitAllCookie(func(key, value []byte) {
-			keyString := string(key)
-			if !isDisabled(keyString, cfg.Except) {
-				decryptedValue, err := cfg.Decryptor(string(value), cfg.Key)
+			cookie := requestCookie{name: string(key), value: string(value)}
+			if !isDisabled(cookie.name, cfg.Except) {
+				decryptedValue, err := cfg.Decryptor(cookie.value, cfg.Key)
 				if err != nil {
-					c.Request().Header.SetCookieBytesKV(key, nil)
-				} else {
-					c.Request().Header.SetCookie(string(key), decryptedValue)
+					decryptedValue = ""
 				}
+				cookie.value = decryptedValue
 			}
+			cookies = append(cookies, cookie)
 		})
+		c.Request().Header.DelAllCookies()
+		for _, cookie := range cookies {
+			c.Request().Header.SetCookie(cookie.name, cookie.value)
+		}
 
 		// Continue stack
 		err := c.Next()
